@@ -154,6 +154,7 @@ pub fn run(a: &Args) -> Option<Report> {
     match a.leg.as_str() {
         "native" | "miri-seq" => Some(run_relations(a)),
         "race" | "miri-race" => Some(run_race(a)),
+        "clone-race" => Some(run_clone_race(a)),
         _ => None,
     }
 }
@@ -377,5 +378,73 @@ fn run_race(a: &Args) -> Report {
     }
     rep.count("interleaving_signatures", sigs.len() as u64);
     rep.count("window:get_hash-complete-while-other-between-stores", windows);
+    rep
+}
+
+/// A key that is cloned while another thread performs its first get_hash(): the clone must hash like the original.
+/// No hook exists inside Clone, so the window is widened by a large owned name (clone and hash both take ~100 us).
+fn run_clone_race(a: &Args) -> Report {
+    let mut rep = Report::new("C03", &a.leg, a.seed);
+    let mut r = Rng::new(a.shard_seed());
+    let rounds = a.budget(60, 3000);
+    let mut overlapping_clones = 0u64;
+    for _ in 0..rounds {
+        let size = *r.pick(&[64usize << 10, 256 << 10, 1 << 20]);
+        let name: String = std::iter::repeat('n').take(size).collect();
+        let nl = r.usize(3);
+        let labels: Vec<Label> = (0..nl).map(|i| Label::from_static_parts(leak_str(&format!("k{}", i)), "v")).collect();
+        let key = Arc::new(Key::from_static_labels(name.clone(), leak_labels(labels.clone())));
+        let reference = Key::from_parts(name, labels).get_hash();
+        let go = Arc::new(std::sync::atomic::AtomicBool::new(false));
+        let done = Arc::new(std::sync::atomic::AtomicBool::new(false));
+        let (k2, g2, d2) = (key.clone(), go.clone(), done.clone());
+        let hasher = std::thread::spawn(move || {
+            while !g2.load(std::sync::atomic::Ordering::SeqCst) {
+                std::hint::spin_loop();
+            }
+            let h = k2.get_hash();
+            d2.store(true, std::sync::atomic::Ordering::SeqCst);
+            h
+        });
+        let (k3, g3, d3) = (key.clone(), go.clone(), done.clone());
+        let cloner = std::thread::spawn(move || {
+            while !g3.load(std::sync::atomic::Ordering::SeqCst) {
+                std::hint::spin_loop();
+            }
+            let mut bad: Option<u64> = None;
+            let mut n = 0u64;
+            loop {
+                let finished_before = d3.load(std::sync::atomic::Ordering::SeqCst);
+                let c = (*k3).clone();
+                n += 1;
+                let h = c.get_hash();
+                if h != reference || c != *k3 {
+                    bad = Some(h);
+                }
+                if finished_before || n > 10_000 {
+                    break;
+                }
+            }
+            (bad, n)
+        });
+        go.store(true, std::sync::atomic::Ordering::SeqCst);
+        let h = hasher.join().unwrap();
+        let (bad, n) = cloner.join().unwrap();
+        overlapping_clones += n.saturating_sub(1);
+        rep.case(mix(size as u64, mix(n, nl as u64)), n > 1);
+        if h != reference {
+            rep.violation("C03:racing-first-get_hash-wrong-value", jo! {"what" => "first get_hash() returned a wrong value while the key was being cloned", "got" => format!("{:#x}", h)});
+        }
+        if let Some(b) = bad {
+            rep.violation(
+                "C03:clone-during-first-get_hash-hashes-differently",
+                jo! {"what" => "a clone taken while another thread performed the key's first get_hash() compares equal to the original but returns a different get_hash()", "clone_hash" => format!("{:#x}", b), "expected" => format!("{:#x}", reference), "name_bytes" => size, "labels" => nl},
+            );
+        }
+        if rep.want_sample() {
+            rep.sample(jo! {"clone_race" => true, "name_bytes" => size, "labels" => nl, "clones_taken_while_hashing" => n});
+        }
+    }
+    rep.count("clones_overlapping_first_get_hash", overlapping_clones);
     rep
 }
